@@ -1,6 +1,6 @@
-CONSTANTS Graphs <- G1All
+CONSTANTS Graphs <- G1Small
 Source = "edits"
-WalkLen = 9
+WalkLen = 7
 NEdits = 1
 MaxLen = 0
 Heaps <- H0
